@@ -28,7 +28,9 @@ def digest(root):
             out[rel] = (data, st.st_mode, st.st_mtime_ns, st.st_ino)
     return out
 
-def gopatch(binary, cwd, args, stdin=None, timeout=30, prefix=None):
+def gopatch(binary, cwd, args, stdin=None, timeout=180, prefix=None):
+    # (180 s: a run of the binary on the small inputs used here takes milliseconds; the limit only has to tell a run that hangs
+    # from a machine that is busy many times over - a run killed half way through an in-place write looks like a defect)
     cmd = (prefix or []) + [binary] + args
     try:
         r = subprocess.run(cmd, cwd=cwd, input=stdin if stdin is not None else b"", stdout=subprocess.PIPE,
